@@ -13,7 +13,6 @@ import (
 	"fmt"
 	"go/ast"
 	"go/parser"
-	"go/printer"
 	"go/token"
 	"os"
 	"path/filepath"
@@ -43,6 +42,62 @@ type walker struct {
 	out  []string
 	recv string // receiver name of the function
 	kind string // "Manager" or "Transaction"
+	// the variables of Transaction.With that the skeleton speaks about, found by their ROLE (not by their names):
+	createFn, callback *ast.Object          // third and fourth parameter
+	use                *ast.Object          // the cache handed to the callback first: callback(<use>.item)
+	existing           map[*ast.Object]bool // bound by `x, ok := ….sharedCaches[…]`
+	own                map[*ast.Object]bool // bound by `x, ok := ….writtenCaches[…]`
+}
+
+func objOf(e ast.Expr) *ast.Object {
+	if p, ok := e.(*ast.ParenExpr); ok {
+		return objOf(p.X)
+	}
+	if id, ok := e.(*ast.Ident); ok {
+		return id.Obj
+	}
+	return nil
+}
+
+// roles: see walker
+func (w *walker) roles(fd *ast.FuncDecl) {
+	w.existing, w.own = map[*ast.Object]bool{}, map[*ast.Object]bool{}
+	var params []*ast.Object
+	for _, f := range fd.Type.Params.List {
+		for _, n := range f.Names {
+			params = append(params, n.Obj)
+		}
+	}
+	if fd.Name.Name == "With" {
+		if len(params) != 4 {
+			fail("Transaction.With: expected the four parameters (name, readOnly, create, callback)")
+		}
+		w.createFn, w.callback = params[2], params[3]
+	}
+	ast.Inspect(fd.Body, func(n ast.Node) bool {
+		switch x := n.(type) {
+		case *ast.AssignStmt:
+			if len(x.Rhs) == 1 && len(x.Lhs) >= 1 {
+				if ix, ok := x.Rhs[0].(*ast.IndexExpr); ok {
+					if o := objOf(x.Lhs[0]); o != nil {
+						p := selPath(ix.X)
+						if w.isShared(p) {
+							w.existing[o] = true
+						} else if strings.HasSuffix(p, ".writtenCaches") {
+							w.own[o] = true
+						}
+					}
+				}
+			}
+		case *ast.CallExpr:
+			if w.callback != nil && objOf(x.Fun) == w.callback && w.use == nil && len(x.Args) == 1 {
+				if sel, ok := x.Args[0].(*ast.SelectorExpr); ok {
+					w.use = objOf(sel.X)
+				}
+			}
+		}
+		return true
+	})
 }
 
 func (w *walker) emit(s string) { w.out = append(w.out, s) }
@@ -71,6 +126,17 @@ func (w *walker) expr(e ast.Expr, pfx string) {
 	switch x := e.(type) {
 	case nil:
 	case *ast.CallExpr:
+		if id, ok := x.Fun.(*ast.Ident); ok && id.Obj != nil && id.Obj == w.createFn {
+			w.emit(pfx + "createFn")
+			return
+		}
+		if id, ok := x.Fun.(*ast.Ident); ok && id.Obj != nil && id.Obj == w.callback {
+			for _, a := range x.Args {
+				w.expr(a, "")
+			}
+			w.emit(pfx + "callF")
+			return
+		}
 		if id, ok := x.Fun.(*ast.Ident); ok {
 			switch id.Name {
 			case "verifYield", "verifYield2":
@@ -98,15 +164,6 @@ func (w *walker) expr(e ast.Expr, pfx string) {
 					w.emit(pfx + "map.clear")
 					return
 				}
-			case "createFn":
-				w.emit(pfx + "createFn")
-				return
-			case "f":
-				for _, a := range x.Args {
-					w.expr(a, "")
-				}
-				w.emit(pfx + "callF")
-				return
 			case "len", "make", "append", "int64":
 				for _, a := range x.Args {
 					w.expr(a, "")
@@ -165,9 +222,12 @@ func (w *walker) expr(e ast.Expr, pfx string) {
 		}
 		w.expr(x.X, "")
 	case *ast.BinaryExpr:
-		if selPath(x.X) == "cacheToUse" && selPath(x.Y) == "existingCache" && x.Op == token.EQL {
-			w.emit(pfx + "use==existing")
-			return
+		if x.Op == token.EQL && w.use != nil {
+			a, b := objOf(x.X), objOf(x.Y)
+			if (a == w.use && w.existing[b]) || (b == w.use && w.existing[a]) {
+				w.emit(pfx + "use==existing")
+				return
+			}
 		}
 		w.expr(x.X, "")
 		w.expr(x.Y, "")
@@ -217,11 +277,12 @@ func (w *walker) assign(s *ast.AssignStmt) {
 				w.emit("scrapped.set")
 			}
 		case *ast.Ident:
-			if x.Name == "cacheToUse" && i < len(s.Rhs) {
-				switch selPath(s.Rhs[i]) {
-				case "ownCache":
+			if x.Obj != nil && x.Obj == w.use && i < len(s.Rhs) {
+				r := objOf(s.Rhs[i])
+				switch {
+				case r != nil && w.own[r]:
 					w.emit("use.own")
-				case "existingCache":
+				case r != nil && w.existing[r]:
 					w.emit("use.existing")
 				default:
 					if _, ok := s.Rhs[i].(*ast.UnaryExpr); ok {
@@ -297,12 +358,41 @@ func (w *walker) block(b *ast.BlockStmt) {
 	}
 }
 
+// render: the condition in the astnorm normal form, function-local identifiers under canonical names
 func render(e ast.Expr) string {
-	var b strings.Builder
-	if err := printer.Fprint(&b, token.NewFileSet(), e); err != nil {
+	return strings.ReplaceAll(CanonPrint(token.NewFileSet(), e), " ", "")
+}
+
+// referenced: some non-test file of the package mentions the identifier other than in its own declaration
+func referenced(dir, name string) bool {
+	ents, err := os.ReadDir(dir)
+	if err != nil {
 		fail("%v", err)
 	}
-	return strings.Join(strings.Fields(b.String()), "")
+	fs := token.NewFileSet()
+	for _, e := range ents {
+		if e.IsDir() || !strings.HasSuffix(e.Name(), ".go") || strings.HasSuffix(e.Name(), "_test.go") {
+			continue
+		}
+		f, err := parser.ParseFile(fs, filepath.Join(dir, e.Name()), nil, parser.SkipObjectResolution)
+		if err != nil {
+			fail("%v", err)
+		}
+		uses := 0
+		ast.Inspect(f, func(n ast.Node) bool {
+			if fd, ok := n.(*ast.FuncDecl); ok && fd.Name.Name == name {
+				uses-- // the declaration itself
+			}
+			if id, ok := n.(*ast.Ident); ok && id.Name == name {
+				uses++
+			}
+			return true
+		})
+		if uses > 0 {
+			return true
+		}
+	}
+	return false
 }
 
 func leanList(name string, l []string) string {
@@ -332,6 +422,8 @@ func main() {
 	if err != nil {
 		fail("%v", err)
 	}
+	// log calls dropped, x++ / x += 1, := / var, orientation of if/else, order of pure conjunctions: astnorm_gen.go.
+	NormalizeFile(fset, file, AllNorm)
 	want := map[string]string{"Release": "Manager", "checkAndPrune": "Manager", "With": "Transaction", "Commit": "Transaction"}
 	got := map[string][]string{}
 	for _, d := range file.Decls {
@@ -354,6 +446,7 @@ func main() {
 			fail("%s: unnamed receiver", fd.Name.Name)
 		}
 		w := &walker{recv: fd.Recv.List[0].Names[0].Name, kind: kind}
+		w.roles(fd)
 		w.block(fd.Body)
 		got[fd.Name.Name] = w.out
 	}
@@ -371,10 +464,17 @@ func main() {
 		if _, ok := want[fd.Name.Name]; ok {
 			continue
 		}
+		if !fd.Name.IsExported() && !referenced(filepath.Dir(src), fd.Name.Name) {
+			continue // dead code: an unexported function nobody in the package mentions cannot take part in the protocol
+		}
 		w := &walker{recv: "_", kind: "_"}
 		if fd.Recv != nil && len(fd.Recv.List) == 1 && len(fd.Recv.List[0].Names) == 1 {
 			w.recv = fd.Recv.List[0].Names[0].Name
 		}
+		if fd.Body == nil {
+			continue
+		}
+		w.roles(fd)
 		w.block(fd.Body)
 		for _, t := range w.out {
 			if strings.Contains(t, "Lock") || strings.HasPrefix(t, "map.") || strings.HasPrefix(t, "written.") || strings.HasPrefix(t, "scrapped.") {
